@@ -18,6 +18,7 @@ import (
 	"time"
 
 	"github.com/mdlayher/corerad/internal/config"
+	"github.com/mdlayher/corerad/internal/netstate"
 	"github.com/mdlayher/corerad/internal/vfh"
 	"github.com/mdlayher/sdnotify"
 )
@@ -527,6 +528,10 @@ func c20Palette(slot int) []c20Task {
 
 func verifC20(t *testing.T, r *vfh.Rand, out *vfh.Out) {
 	c20Build(t, r, out)
+	c20ServeRetryAll(t, r, out)
+	out.Flush()
+	c20HTTPTask(t, out)
+	out.Flush()
 
 	sock := c20OpenSock(t)
 	run := func(sc *c20Scen) { out.Line(sc.caseLine(), c20Serve(t, sock, sc)) }
@@ -599,6 +604,26 @@ func c20BuildOne(out *vfh.Out, kinds []int, debug, watcher bool) {
 			srv.w = nil
 		}
 		tasks := srv.BuildTasks(cfg, nil)
+		// wiring: ending the watch closes every channel the watcher handed out, so a task's
+		// channel that is closed afterwards is a subscription of this server's watcher
+		if srv.w != nil {
+			cctx, ccancel := context.WithCancel(context.Background())
+			ccancel()
+			_ = srv.w.Watch(cctx)
+		}
+		wired := func(ch <-chan netstate.Change) string {
+			if ch == nil {
+				return "w0"
+			}
+			select {
+			case _, ok := <-ch:
+				if !ok {
+					return "w1"
+				}
+			default:
+			}
+			return "wx"
+		}
 		o := new(vfh.Toks).N(len(tasks))
 		for _, task := range tasks {
 			idx := func(name string) int {
@@ -612,11 +637,23 @@ func c20BuildOne(out *vfh.Out, kinds []int, debug, watcher bool) {
 				if task.String() != fmt.Sprintf("advertiser %q", x.cfg.Name) {
 					o.S("badname")
 				}
+				o.S(wired(x.watchC))
+				// the advertiser's terminate function is the server's terminator
+				srv.t.set(syscall.SIGTERM)
+				t1 := x.terminate != nil && x.terminate()
+				srv.t.set(syscall.SIGHUP)
+				t2 := x.terminate != nil && !x.terminate()
+				if t1 && t2 {
+					o.S("t1")
+				} else {
+					o.S("t0")
+				}
 			case *Monitor:
 				o.S("m").N(idx(x.iface))
 				if task.String() != fmt.Sprintf("monitor %q", x.iface) {
 					o.S("badname")
 				}
+				o.S(wired(x.watchC))
 			case *httpTask:
 				o.S("h")
 				if x.addr != cfg.Debug.Address {
